@@ -74,6 +74,9 @@ func collectStmts(p *LProgram) []stmtRef {
 			}
 		}
 	}
+	if !p.Snippet && len(p.Decls) > 0 {
+		walk(&p.Decls, false, nil, nil)
+	}
 	for i := range p.Subs {
 		walk(&p.Subs[i].Stmts, false, nil, &p.Subs[i]) // sub bodies have no closing comment slot in this renderer
 	}
@@ -82,14 +85,25 @@ func collectStmts(p *LProgram) []stmtRef {
 
 func genC12(t *rapid.T) any {
 	g := &lintGen{t: t, errPct: 35}
+	decls := g.rootDecls() // drawn first: statement ids follow the order of the text
 	p := g.program(rapid.IntRange(0, 2).Draw(t, "nuser"))
+	p.Decls = decls
+	if rapid.IntRange(0, 4).Draw(t, "snippet") == 0 {
+		// a statement-only snippet: the statements of vcl_recv at the top level of the file
+		for _, sub := range p.Subs {
+			if sub.Name == "vcl_recv" {
+				p = LProgram{Subs: []LSub{sub}, Snippet: true}
+				break
+			}
+		}
+	}
 	c := C12Case{Prog: p}
 	refs := collectStmts(&c.Prog)
 	var cands []stmtRef
 	for _, r := range refs {
-		if !r.s.Declare {
-			cands = append(cands, r)
-		}
+		// declarations of locals are candidates too: their unused/variable diagnostic is reported when the
+		// subroutine is left but is located in the declare statement
+		cands = append(cands, r)
 	}
 	n := rapid.IntRange(1, 3).Draw(t, "ndirs")
 	usedLead := map[int]bool{}
@@ -213,6 +227,9 @@ func genC12(t *rapid.T) any {
 			if r.s.Compound || usedTrail[r.s.ID] {
 				continue // trailing falco-ignore only on simple statements (documentation is ambiguous for compound ones)
 			}
+			if strings.HasPrefix(r.s.Text, "penaltybox ") || strings.HasPrefix(r.s.Text, "ratecounter ") || strings.HasPrefix(r.s.Text, "sub ") {
+				continue // the comment behind `}` belongs to the block of these declarations (docs/parser.md), not to a line
+			}
 			usedTrail[r.s.ID] = true
 			d.Kind = "this"
 		case "next":
@@ -325,7 +342,7 @@ type locDiag struct {
 }
 
 func lintLocated(src string) ([]locDiag, string) {
-	vcl, err := parser.New(lexer.NewFromString(src, lexer.WithFile("main.vcl"))).ParseVCL()
+	vcl, err := parser.New(lexer.NewFromString(src, lexer.WithFile("main.vcl"))).ParseVCLOrSnippet()
 	if err != nil {
 		return nil, "parse error: " + err.Error()
 	}
@@ -549,6 +566,21 @@ func checkC12(raw json.RawMessage) iso.Result {
 		}
 		want, dVar = filter(want), filter(dVar)
 	}
+	{
+		// two declarations of one name share one "is used" flag: which of them an unused/declaration warning
+		// belongs to (and hence whether a directive on one of them covers it) is not defined
+		drop := func(in []locDiag) []locDiag {
+			var out []locDiag
+			for _, d := range in {
+				if d.Rule == "unused/declaration" && strings.Contains(d.Message, "\"dup_") {
+					continue
+				}
+				out = append(out, d)
+			}
+			return out
+		}
+		want, dVar = drop(want), drop(dVar)
+	}
 	if fmt.Sprint(want) != fmt.Sprint(dVar) {
 		col.FailKey(c12Key(c, want, dVar), "ignore comments did not suppress exactly what they cover\n%s\n covered line ranges: %+v\n--- variant ---\n%s", locDiff(want, dVar), covers, numbered(varSrc))
 	}
@@ -589,4 +621,30 @@ func numbered(src string) string {
 }
 
 // c12Key: classifier of known findings (filled in during triage).
-func c12Key(c C12Case, want, got []locDiag) string { return "" }
+func c12Key(c C12Case, want, got []locDiag) string {
+	// known: in a statement-only snippet `goto x;` without a destination is reported as unused/goto when the
+	// linter has finished (lintUnusedGotos at the end of Lint), long after the directive covering the goto
+	// statement was dropped. Signature: snippet, and once the unused/goto diagnostics are removed from what
+	// falco reports, it reports exactly what is expected.
+	if c.Prog.Snippet {
+		var rest []locDiag
+		n := 0
+		for _, d := range got {
+			if d.Rule == "unused/goto" {
+				n++
+				continue
+			}
+			rest = append(rest, d)
+		}
+		var wrest []locDiag
+		for _, d := range want {
+			if d.Rule != "unused/goto" {
+				wrest = append(wrest, d)
+			}
+		}
+		if n > 0 && fmt.Sprint(rest) == fmt.Sprint(wrest) {
+			return "lint.unused-goto-in-snippet-not-suppressed"
+		}
+	}
+	return ""
+}
